@@ -482,7 +482,7 @@ Proof.
 Qed.
 
 Definition kv_ok (kv : bytes * bytes) : bool :=
-  negb (is_nil (fst kv)) && seven (fst kv) && fits (fst kv) && fits (hide_words (snd kv)).
+  seven (fst kv) && fits (fst kv) && fits (hide_words (snd kv)).
 
 Lemma flatkv_fits : forall L, (forall kv, In kv L -> kv_ok kv = true) -> forallb fits (flatkv L) = true.
 Proof.
@@ -495,15 +495,12 @@ Qed.
 Definition unopt (m : params) : list (bytes * bytes) := match m with Some m => m | None => [] end.
 
 Lemma pair_flat : forall x, ext_ok x -> forall L m, (forall kv, In kv L -> kv_ok kv = true) ->
-  pair_params x (flatkv L) [] m =
+  pair_params x (flatkv L) None m =
   Some (match L with [] => m | _ => Some (fold_left mstep (lower_keys L) (unopt m)) end).
 Proof.
   intros x Hx. induction L as [|kv r IH]; intros m Hk; [reflexivity|].
-  cbn [flatkv pair_params is_nil].
-  assert (Hnil : is_nil (fst kv) = false).
-  { pose proof (Hk kv (or_introl eq_refl)) as H. unfold kv_ok in H.
-    destruct (is_nil (fst kv)); [discriminate H|reflexivity]. }
-  rewrite Hnil, (decode_hide x _ Hx).
+  cbn [flatkv pair_params].
+  rewrite (decode_hide x _ Hx).
   rewrite IH by (intros kv' Hin; apply Hk; right; exact Hin).
   destruct r; reflexivity.
 Qed.
